@@ -12,6 +12,7 @@ import c_quat
 import c_angle
 import c_rot
 import c_conv
+import c_xform
 import re
 import sym
 
@@ -78,6 +79,23 @@ def unit_C01(src, model='R'):
     return u
 
 
+def unit_C02t(src):
+    """twin of C02: `Transform<Point2<S>> for Matrix3<S>` (inverse_transform, inverse_transform_vector, concat_self)"""
+    u = Unit('C02t', src, 'R')
+    lib, F = base_linear(u, r'Point2<S>')
+    c_matrix.build_c02(lib, F)
+    u.spec_texts.append(lib.text())
+    u.spec_texts.append(c_matrix.cf_spec())
+    hints, polys, lemmas = c_matrix.c02_hints(F)
+    u.contract_fns.insert(0, c_matrix.contracts_c02(hints))
+    u.contract_fns.insert(0, c_matrix.contract_det_sub)
+    u.select(Sel('SquareMatrix', c_matrix.MAT, ['determinant', 'invert']),
+             Sel('Transform', c_matrix.MAT, ['inverse_transform', 'inverse_transform_vector', 'concat_self'], trait_args=r'Point2<S>'))
+    u.free_fns.append(('matrix', 'det_sub_proc_unsafe'))
+    u.assume_pred = lambda im, f: not (im is not None and trait_name_of(im) == 'Transform')
+    return u
+
+
 def unit_C02(src, model='R', dims=(2, 3, 4)):
     u = Unit('C02', src, model)
     lib, F = base_linear(u)
@@ -90,7 +108,7 @@ def unit_C02(src, model='R', dims=(2, 3, 4)):
     u.contract_fns.insert(0, c_matrix.contracts_c02(hints))
     u.contract_fns.insert(0, c_matrix.contract_det_sub)
     u.select(Sel('SquareMatrix', c_matrix.MAT, ['determinant', 'invert']),
-             Sel('Transform', c_matrix.MAT, ['inverse_transform'], trait_args=r'Point3<S>'))
+             Sel('Transform', c_matrix.MAT, ['inverse_transform', 'inverse_transform_vector', 'concat_self'], trait_args=r'Point3<S>'))
     u.free_fns.append(('matrix', 'det_sub_proc_unsafe'))
     add_laws(u, c_matrix.laws_c02(F, dims))
     return u
@@ -143,7 +161,8 @@ def full_base(u, angle_kind='Rad'):
     u.contract_fns.insert(0, c_matrix.contracts_c02(hints))
     u.contract_fns.insert(0, c_matrix.contract_det_sub)
     u.contract_fns += [c_quat.contracts, c_angle.contracts]
-    u.select(Sel('SquareMatrix', c_matrix.MAT, ['determinant', 'invert']))
+    u.select(Sel('SquareMatrix', c_matrix.MAT, ['determinant', 'invert']),
+             Sel('Transform', c_matrix.MAT, ['inverse_transform', 'inverse_transform_vector', 'concat_self'], trait_args=r'Point3<S>'))
     u.free_fns.append(('matrix', 'det_sub_proc_unsafe'))
     c_quat.select_c04(u)
     c_angle.select_c13(u)
@@ -201,6 +220,45 @@ def unit_conv(src, prop, angle_kind='Rad'):
     return u
 
 
+def unit_C08(src, k):
+    I = c_xform.INST[k]
+    u = Unit('C08' + k, src, 'R')
+    lib, F = full_base(u, 'Rad')
+    if k == 'b2':
+        # the Point2 flavour of Transform for Matrix3 (Verus cannot hold both in one file)
+        for sel in u.sels:
+            if sel.trait == 'Transform' and sel.trait_args == r'Point3<S>':
+                sel.trait_args = r'Point2<S>'
+    c_conv.build(lib, F)
+    u.spec_texts.append(lib.text())
+    u.spec_texts.append(c_conv.text_specs())
+    u.spec_texts.append(c_xform.text_specs(k))
+    rh, rp = c_rot.shape_hints(F)
+    u.contract_fns.insert(0, c_rot.contracts(rh, 'Rad'))
+    c_rot.select_c06(u)
+    hints, polys = c_conv.shape_hints(F)
+    u.contract_fns.insert(0, c_conv.contracts(hints, 'Rad'))
+    c_conv.select(u)
+    u.contract_fns.insert(0, c_xform.contracts(k))
+    c_xform.select(u, k)
+    u.scoped_subst.append((lambda im: 'Decomposed' in im.header, {'P': 'P_', 'R': 'R_', 'V': 'V_'}))
+    u.assoc_fix.update({'P_::Diff': 'V_', 'P_::Scalar': 'Sc'})
+    u.extra_prelude.append('verus! {\npub type P_ = %s;\npub type R_ = %s;\npub type V_ = %s;\n}\n' % (I['P'], I['R'], I['V']))
+    u.trait_extras['Transform'] = dict(
+        decl_items='spec fn xf_ok(&self) -> bool;',
+        requires={'inverse_transform': ['$0.xf_ok()'], 'inverse_transform_vector': ['$0.xf_ok()']},
+        impl_items=lambda im: ('open spec fn xf_ok(&self) -> bool { self.rot.inv_ok() }' if 'Decomposed' in im.selfty else 'open spec fn xf_ok(&self) -> bool { true }'))
+    for L in c_matrix.laws(F):
+        if L.name in ('m2_action', 'm3_action'):
+            u.lemma_texts.append(L.render_assumed('C01'))
+    if k != 'q':
+        u.lemma_texts.append(sym.HELPER_LEMMAS)
+        add_laws(u, c_xform.laws(F, k))
+    own = lambda im, f: im is not None and 'Decomposed' in im.header
+    u.assume_pred = lambda im, f: not own(im, f)
+    return u
+
+
 def trait_name_of(im):
     from emit import trait_name
     return trait_name(im.trait)
@@ -218,7 +276,7 @@ def build_C03(src, tier):
     return [unit_C03(src, 'R')]
 
 
-UNITS = {'C05': lambda src, tier: [unit_conv(src, 'C05', 'Rad')], 'C07': lambda src, tier: [unit_conv(src, 'C07', 'Rad'), unit_conv(src, 'C07', 'Deg')], 'C06': lambda src, tier: [unit_C06(src, 'Rad'), unit_C06(src, 'Deg')], 'C13': lambda src, tier: [unit_C13(src, 'R')], 'C04': lambda src, tier: [unit_C04(src, 'R')], 'C02': lambda src, tier: [unit_C02(src, 'R')], 'C01': lambda src, tier: [unit_C01(src, 'R'), unit_C01t(src, 'R')], 'C03': build_C03, 'C12': lambda src, tier: [unit_C12(src, 'R')]}
+UNITS = {'C08': lambda src, tier: [unit_C08(src, 'q'), unit_C08(src, 'b3'), unit_C08(src, 'b2')], 'C05': lambda src, tier: [unit_conv(src, 'C05', 'Rad')], 'C07': lambda src, tier: [unit_conv(src, 'C07', 'Rad'), unit_conv(src, 'C07', 'Deg')], 'C06': lambda src, tier: [unit_C06(src, 'Rad'), unit_C06(src, 'Deg')], 'C13': lambda src, tier: [unit_C13(src, 'R')], 'C04': lambda src, tier: [unit_C04(src, 'R')], 'C02': lambda src, tier: [unit_C02(src, 'R'), unit_C02t(src)], 'C01': lambda src, tier: [unit_C01(src, 'R'), unit_C01t(src, 'R')], 'C03': build_C03, 'C12': lambda src, tier: [unit_C12(src, 'R')]}
 KANI = {}
 META = {
     'C03': dict(min_obligations=350, trust=['A1', 'A2', 'A6'],
